@@ -1,9 +1,11 @@
 // native replay for C02: exit 1 = the real __cmp__/eq violate the ordering axioms on the counterexample
 #include "leafnum.h"
+#include "composite.h"
 int main(int argc, char **argv)
 {
     if (argc < 2) return 3;
     Args a = parse_args(argc, argv);
+    if (is_composite_obligation(argv[1])) return composite_search(argv[1], true);
     RCP<const Basic> x = slot(a, "A", "ka");
     bool same = has(a, "pb_is_a") && int_of(a, "pb_is_a") != 0;
     RCP<const Basic> y = same ? x : slot(a, "B", "kb");
